@@ -21,6 +21,11 @@ claimed = {
    note="Assumed: go/ssa, solvers, govc, fmt.Sprintf/Errorf return fresh values; the truth tables are a hand transcription of specs/*.spec (that transcription is the oracle); for undeclared version numbers only totality is required.",
    technique="contract-based deductive verification: closure contracts generated from declared constants, SMT over bit-vectors and an uninterpreted string sort",
    design="DESIGN.md §4 C19"),
+ "C20": dict(
+   text="Proof of a representation invariant by induction over mutator calls: NewFrame establishes, and SetCustomPayload, SetWarnings, SetTracingId, RequestTracingId and SetCompress each preserve, 'flag bit <=> body part present, header opcode/direction = message's, compressed flag never on STARTUP/OPTIONS/READY', with exact effect and frame clauses (no other flag bit or body part changes); every STARTUP setter stores exactly its own option and changes no other (quantified over all keys), every getter returns it. Holding after every sequence of calls follows from requires-Inv/ensures-Inv on each mutator, which no test enumeration gives.",
+   note="Assumed: go/ssa, solvers, govc; message GetOpCode/IsResponse are constant per implementer (checked syntactically, modelled as a function of the dynamic type); 'still encodes and round-trips' is the encoder's precondition (C01), not re-proved; SetTracingId/RequestTracingId specified for responses/requests as documented.",
+   technique="contract-based deductive verification: representation invariant + frame conditions over a component heap model, SMT arrays for maps",
+   design="DESIGN.md §4 C20"),
 }
 
 not_applicable = {
